@@ -865,6 +865,148 @@ def namedtuple_fields(modules, log):
             log.append(f"namedtuple fields {mi.name}:{fn.name} {sorted(binds)}")
 
 
+def deque_to_index(fn, log=None, where=""):
+    """A local collections.deque that is only consumed from the left is a list with a head index:
+        q = deque(xs)            ->  q = xs ; q_i = 0           (xs a fresh list: a call)
+        while q [and ...]        ->  while q_i < len(q) [and ...]      (also in `if`)
+        q[0]                     ->  q[q_i]
+        q.popleft()  (statement) ->  q_i += 1
+        f(q.popleft())           ->  f(q[q_i]) ; q_i += 1
+        q.appendleft(v)          ->  q.insert(q_i, v)
+        acc += q / acc.extend(q) ->  acc += q[q_i:]
+    Any other use of q leaves the function as it is."""
+    qs = {}
+    for n in ast.walk(fn):
+        if isinstance(n, ast.Assign) and len(n.targets) == 1 and isinstance(n.targets[0], ast.Name) and isinstance(n.value, ast.Call) and ast.unparse(n.value.func) in ("deque", "collections.deque") and len(n.value.args) == 1 and not n.value.keywords and isinstance(n.value.args[0], ast.Call):
+            qs[n.targets[0].id] = n
+    if not qs:
+        return False
+    from_parent = {}
+    for n in ast.walk(fn):
+        for c in ast.iter_child_nodes(n):
+            from_parent[id(c)] = n
+    # every use of q must be one of the supported forms
+    for q in list(qs):
+        for n in ast.walk(fn):
+            if isinstance(n, ast.Name) and n.id == q:
+                p = from_parent.get(id(n))
+                ok = False
+                if isinstance(p, ast.Assign) and p is qs[q]:
+                    ok = True
+                elif isinstance(p, ast.Subscript) and p.value is n and isinstance(p.slice, ast.Constant) and p.slice.value == 0:
+                    ok = True
+                elif isinstance(p, ast.Attribute) and p.attr in ("popleft", "appendleft") and isinstance(from_parent.get(id(p)), ast.Call):
+                    ok = True
+                elif isinstance(p, (ast.While, ast.If)) and p.test is n:
+                    ok = True
+                elif isinstance(p, ast.BoolOp) and isinstance(from_parent.get(id(p)), (ast.While, ast.If)):
+                    ok = True
+                elif isinstance(p, ast.AugAssign) and p.value is n and isinstance(p.op, ast.Add):
+                    ok = True
+                elif isinstance(p, ast.Call) and isinstance(p.func, ast.Attribute) and p.func.attr == "extend" and p.args and p.args[0] is n:
+                    ok = True
+                elif isinstance(p, ast.Call) and isinstance(p.func, ast.Name) and p.func.id == "len":
+                    ok = True
+                if not ok:
+                    del qs[q]
+                    break
+    if not qs:
+        return False
+
+    def idx(q):
+        return ast.Name(id=f"{q}_i", ctx=ast.Load())
+
+    class E(ast.NodeTransformer):
+        """expression-level rewrites; collects the queues popped inside the expression"""
+
+        def __init__(self):
+            self.popped = []
+
+        def visit_Subscript(self, n):
+            self.generic_visit(n)
+            if isinstance(n.value, ast.Name) and n.value.id in qs and isinstance(n.slice, ast.Constant) and n.slice.value == 0:
+                n.slice = idx(n.value.id)
+            return n
+
+        def visit_Call(self, n):
+            self.generic_visit(n)
+            f = n.func
+            if isinstance(f, ast.Attribute) and isinstance(f.value, ast.Name) and f.value.id in qs:
+                q = f.value.id
+                if f.attr == "popleft" and not n.args:
+                    self.popped.append(q)
+                    return ast.Subscript(value=ast.Name(id=q, ctx=ast.Load()), slice=idx(q), ctx=ast.Load())
+                if f.attr == "appendleft" and len(n.args) == 1:
+                    return ast.Call(func=ast.Attribute(value=ast.Name(id=q, ctx=ast.Load()), attr="insert", ctx=ast.Load()), args=[idx(q), n.args[0]], keywords=[])
+            if isinstance(f, ast.Attribute) and f.attr == "extend" and n.args and isinstance(n.args[0], ast.Name) and n.args[0].id in qs:
+                q = n.args[0].id
+                n.args[0] = ast.Subscript(value=ast.Name(id=q, ctx=ast.Load()), slice=ast.Slice(lower=idx(q)), ctx=ast.Load())
+            return n
+
+    def truth(e):
+        if isinstance(e, ast.Name) and e.id in qs:
+            return ast.Compare(left=idx(e.id), ops=[ast.Lt()], comparators=[ast.Call(func=ast.Name(id="len", ctx=ast.Load()), args=[ast.Name(id=e.id, ctx=ast.Load())], keywords=[])])
+        if isinstance(e, ast.BoolOp):
+            e.values = [truth(v) for v in e.values]
+        if isinstance(e, ast.UnaryOp) and isinstance(e.op, ast.Not):
+            e.operand = truth(e.operand)
+        return e
+
+    def bump(q, at):
+        a = ast.AugAssign(target=ast.Name(id=f"{q}_i", ctx=ast.Store()), op=ast.Add(), value=ast.Constant(value=1))
+        ast.copy_location(a, at)
+        return a
+
+    def rec(stmts):
+        out = []
+        for st in stmts:
+            if isinstance(st, (ast.FunctionDef, ast.AsyncFunctionDef, ast.ClassDef)):
+                out.append(st)
+                continue
+            if isinstance(st, ast.Assign) and any(st is d for d in qs.values()):
+                q = st.targets[0].id
+                st.value = st.value.args[0]
+                out.append(st)
+                z = ast.Assign(targets=[ast.Name(id=f"{q}_i", ctx=ast.Store())], value=ast.Constant(value=0))
+                ast.copy_location(z, st)
+                out.append(z)
+                continue
+            if isinstance(st, (ast.While, ast.If)):
+                st.test = truth(st.test)
+            # a bare q.popleft() statement
+            if isinstance(st, ast.Expr) and isinstance(st.value, ast.Call) and isinstance(st.value.func, ast.Attribute) and st.value.func.attr == "popleft" and isinstance(st.value.func.value, ast.Name) and st.value.func.value.id in qs:
+                out.append(bump(st.value.func.value.id, st))
+                continue
+            if isinstance(st, ast.AugAssign) and isinstance(st.value, ast.Name) and st.value.id in qs:
+                q = st.value.id
+                st.value = ast.Subscript(value=ast.Name(id=q, ctx=ast.Load()), slice=ast.Slice(lower=idx(q)), ctx=ast.Load())
+            # expression parts of simple statements
+            ex = E()
+            for field in ("value", "test", "iter", "exc"):
+                v = getattr(st, field, None)
+                if isinstance(v, ast.AST) and not (field == "test" and isinstance(st, (ast.While, ast.If)) and False):
+                    setattr(st, field, ex.visit(v))
+            if isinstance(st, ast.Assign):
+                st.targets = [ex.visit(t) for t in st.targets]
+            for field in ("body", "orelse", "finalbody"):
+                blk = getattr(st, field, None)
+                if isinstance(blk, list) and blk and isinstance(blk[0], ast.stmt):
+                    setattr(st, field, rec(blk))
+            if isinstance(st, ast.Try):
+                for h in st.handlers:
+                    h.body = rec(h.body)
+            out.append(st)
+            for q in ex.popped:
+                out.append(bump(q, st))
+        return out
+
+    fn.body = rec(fn.body)
+    ast.fix_missing_locations(fn)
+    if log is not None:
+        log.append(f"deque -> list + head index {where}:{fn.name} {sorted(qs)}")
+    return True
+
+
 def run(modules, known_funcs):
     """normalise all module trees in place; returns the list of rewrites performed"""
     log = []
@@ -878,4 +1020,5 @@ def run(modules, known_funcs):
         for n in ast.walk(mi.tree):
             if isinstance(n, (ast.FunctionDef, ast.AsyncFunctionDef)):
                 rows_comprehension_to_loop(n, log, mi.name)
+                deque_to_index(n, log, mi.name)
     return log
